@@ -205,6 +205,25 @@ def check_case(case, ctx):
                 ctx.violation("escape.value", f"as_dict() gives {d.get('http-get.client.metadata')!r} for literal {lit!r}", case)
                 return
         ctx.ok(fp=(text, cx), case=case, classes=(f"escape:{case['kind']}", f"pos:{case['pos']}"))
+    elif op == "after_refusal":
+        # history: a literal that the decoder refuses (malformed escape), then well-formed ones - whatever was decoded of the
+        # refused literal must not reach the following results
+        ctx.mon("escape.value")
+        try:
+            c2p.string_token_to_bytes(c2p.Token("STRING", '"' + case["bad"] + '"'))
+            refused = False
+        except Exception:  # noqa: BLE001
+            refused = True
+        for text, want in case["then"]:
+            try:
+                got = c2p.string_token_to_bytes(c2p.Token("STRING", '"' + text + '"'))
+            except Exception as e:  # noqa: BLE001
+                ctx.violation("escape.value", f"literal {text!r} after the malformed {case['bad']!r}: {type(e).__name__}: {e}", case)
+                return
+            if got != want:
+                ctx.violation("escape.value", f"literal {text!r} decoded right after the {'refused' if refused else 'tolerated'} malformed literal {case['bad']!r} gives {got!r}, documented value {want!r}", case)
+                return
+        ctx.ok(fp=("after", case["bad"], tuple(t for t, _ in case["then"])), case=case, classes=("history:after-refusal",))
     else:
         raise ValueError(op)
 
@@ -282,6 +301,8 @@ def run_shard(shard, ctx):
             cases.append(("simple", e, b))
         for raw in ("\n", "\t", "'", ";", "{", "}", "#", "\u00e9", "\uffc2", "x", "\\\\x41"):
             cases.append(("raw", raw, lit_decode(raw)))
+        for bad in ("AB\\x4", "zz\\xzz", "q\\u00", "\\u12", "abc\\xg1", "\\x", "k\\u", "\\uzzzz"):
+            check_case({"op": "after_refusal", "bad": bad, "then": [("", b""), ("ok", b"ok"), ("\\x41", b"A")]}, ctx)
         ctxs = list(CONTEXTS)
         i = 0
         for kind_, esc, val in cases:
